@@ -98,7 +98,9 @@ func (fn *TrieTree) Set(k string, field unsafe.Pointer) bool {
 		c := *(*byte)(rt.IndexPtr(ks, byteTypeSize, i))
 		j := ascii2Int(c)
 		if int(j) >= len(fs) {
-			tmp := make([]TrieNode, j+1)
+			// NOTICE: keep one zeroed node beyond len, since the native trie_get()
+			// checks the index with 'j > len' and may load the node at index len
+			tmp := make([]TrieNode, int(j)+1, int(j)+2)
 			copy(tmp, fs)
 			fs = tmp
 			fp.Index = tmp
